@@ -8,9 +8,13 @@ verus! {
 //@include spec/framed_map.spec.rs
 //@include spec/eval_context.spec.rs
 //@include spec/derive_assumed.rs
+//@include spec/arith.spec.rs
+//@include spec/eval.spec.rs
 //@include spec/row.spec.rs
 //@include spec/rowview.spec.rs
 //@include spec/expand.spec.rs
+//@include spec/stmt.spec.rs
+//@include spec/shape.spec.rs
 
 impl Signal {
 //@fn Signal.default_value
@@ -34,6 +38,17 @@ impl<'a> DataRowIteratorTestData<'a> {
 //@fn TestData.entry_is_input
 //@fn TestData.expand_x
 //@fn TestData.expand_c
+//@fn TestData.get_row
+//@fn TestData.new
+}
+
+impl<'a> EvaluatedRow<'a> {
+//@fn EvaluatedRow.into_data_row
+}
+
+impl<'a> StmtIterator<'a> {
+//@decl StmtIterator.new
+//@decl StmtIterator.next_with_context
 }
 
 } // verus!
